@@ -142,7 +142,23 @@ def rule_provenance(repo, rep, vela):
                     rep.ok("C18-a", site, f"{call_name(call)}(vela_config_files={t}) under `args.config is None`", "None either way")
                     continue
             rep.check(ok, "C18-a", site, f"{call_name(call)}(vela_config_files={t})", "the validated / bundled-directory-resolved paths in config_files are dropped; the raw CLI strings are read relative to the CWD")
-    rep.floor("C18-a", 3)
+    rep.floor("C18-a", 8)
+    # named selections are never replaced silently: a construction that hard-wires internal-default must be under a test
+    # that the user selected internal-default for both system config and memory mode
+    for call in ast.walk(f):
+        if isinstance(call, ast.Call) and (call_name(call) or "").split(".")[-1] in ("ArchitectureFeatures", "Imx93ArchitectureFeatures"):
+            node = c.node_of(call)
+            for kw, arg in (("system_config", "args.system_config"), ("memory_mode", "args.memory_mode")):
+                v = get_kwarg(call, kw)
+                if v is None:
+                    raise AnalysisError(f"{call_name(call)} without {kw}")
+                if norm(v) == arg:
+                    rep.ok("C18-d", site, f"{call_name(call)}({kw}={arg})", "the user's selection is passed on")
+                    continue
+                guards = [x for x in c.nodes[3:] if x.kind == "test" and arg in norm(x.expr) and "DEFAULT_CONFIG" in norm(x.expr) and "==" in norm(x.expr)]
+                ok = any(c.dominates(g.id, node) and all(b != node and not c.reaches(b, node) for b, lab in c.succ[g.id] if lab is False) for g in guards)
+                rep.check(ok, "C18-d", site, f"{call_name(call)}({kw}={norm(v)}) only where the user selected internal-default for it",
+                          f"a --{kw.replace('_', '-')} selection is silently replaced by {norm(v)} (no error for an unresolvable section)")
     # _parse_config: bundled lookup for Dir/file.ini, every path checked readable
     pc = vela.func("main._parse_config")
     cp = [s for s in ast.walk(pc) if isinstance(s, ast.Assign) and norm(s.targets[0]) == "config_path"]
@@ -157,6 +173,31 @@ def rule_provenance(repo, rep, vela):
     rets = [n_ for n_ in cpc.nodes[3:] if isinstance(n_.stmt, ast.Return)]
     rep.check(len(acc) == 1 and all(cpc.dominates(acc[0].id, r.id) for r in rets) and norm(rets[0].stmt.value) == "config_path", "C18-a", f"{VP}:main._parse_config",
               "readability of the resolved path is checked before it is returned", "")
+    # semantic: where does each kind of name resolve, whatever the file system answers (os.access / isfile fork)?
+    def _join(i, a, k, n):
+        if all(isinstance(x, str) for x in a):
+            return "/".join(x.rstrip("/") for x in a)
+        return Unknown("join(" + ", ".join(x if isinstance(x, str) else getattr(x, "text", repr(x)) for x in a) + ")")
+
+    ext = {
+        "os.path.sep": "/", "os.sep": "/", "os.R_OK": 4,
+        "os.path.normpath": lambda i, a, k, n: a[0],
+        "os.path.join": _join,
+        "CONFIG_FILES_PATH": "<BUNDLED>",
+    }
+    it = Interp(repo, vela, externs=ext)
+    cases = [("Arm/vela.ini", "<BUNDLED>/Arm/vela.ini", "Dir/file.ini resolves inside the bundled config_files directory, whatever exists in the working directory"),
+             ("/abs/dir/my.ini", "/abs/dir/my.ini", "an absolute path is taken as given"),
+             ("./Arm/vela.ini", "./Arm/vela.ini", "an explicit relative path is taken as given"),
+             ("a/b/c.ini", "a/b/c.ini", "a deeper relative path is taken as given")]
+    for name, want, text in cases:
+        rets = set()
+        for p_ in it.run("main._parse_config", lambda name=name: ([name], {})):
+            if p_.kind == "return":
+                rets.add(p_.value if isinstance(p_.value, str) else getattr(p_.value, "text", repr(p_.value)))
+        rep.check(rets == {want}, "C18-a", f"{VP}:main._parse_config", f"`{name}`: {text}", f"returning paths give {sorted(rets)} (expected only {want})")
+    for p_ in it.run("main._parse_config", lambda: (["Arm/vela.txt"], {})):
+        rep.check(p_.kind == "raise", "C18-a", f"{VP}:main._parse_config", "a name without the .ini extension is rejected", f"{p_.kind}")
     cf = vela.assign("CONFIG_FILES_PATH")
     rep.check("config_files" in norm(cf), "C18-a", f"{VP}:<module>", "CONFIG_FILES_PATH points at the packaged config_files directory", norm(cf))
 
@@ -278,6 +319,12 @@ def rule_get_vela_config(repo, rep, af):
                 ok = not late and c.dominates(tn, 1)
                 detail = "attribute or port mapping written after its validation" if late else "validation can be bypassed"
         rep.check(ok, "C18-c", site, f"{attr} is validated unconditionally against {sorted(allowed)} after its last write", detail)
+    # the port mapping used by the validations must reflect the current ports (no memo that goes stale when a port is reassigned)
+    pm = af.func("ArchitectureFeatures._mem_port_mapping")
+    reads = {n_.attr for n_ in ast.walk(pm) if isinstance(n_, ast.Attribute) and norm(n_.value) == "self"}
+    writes = [n_ for n_ in ast.walk(pm) if isinstance(n_, (ast.Assign, ast.AugAssign)) and any(isinstance(t, ast.Attribute) and norm(t.value) == "self" for t in (n_.targets if isinstance(n_, ast.Assign) else [n_.target]))]
+    rep.check(reads == {"axi0_port", "axi1_port"} and not writes, "C18-c", f"{AF}:ArchitectureFeatures._mem_port_mapping",
+              "_mem_port_mapping reads the current axi0_port / axi1_port on every call (stateless)", f"reads self.{sorted(reads)}, writes {[norm(w)[:40] for w in writes]}: a cached map is stale after the Sram -> OnChipFlash port reassignment")
     for txt, ords_ok in (("self.arena_cache_size < 0", None), ("self.arena_cache_size > self.max_address_offset", None)):
         want = comparison(ast.parse(txt, mode="eval").body)
         hits = []
@@ -316,7 +363,7 @@ def rule_get_vela_config(repo, rep, af):
             detail = f"arms {tests}"
         rep.check(ok, "C18-d", site, f"{opt}: named section | internal-default | no file -> CliOptionError | unknown section -> CliOptionError", detail)
     rep.floor("C18-c", 6)
-    rep.floor("C18-d", 2)
+    rep.floor("C18-d", 6)
     # keys read per section kind (used by rule f)
     # main(): constructor is given the CLI value
     vela = repo.mod("vela")
